@@ -5,6 +5,7 @@
 // word, in execution order) / res <tid> <results oldest-first> / mon <verdict> / sched <tids> / end
 // Built with -fno-access-control (upgrade/downgrade are protected) and the E-SHIM prelude.
 #include <oneapi/tbb/spin_rw_mutex.h>
+#include "hb.h"
 #include <cstdio>
 #include <cstring>
 #include <sstream>
@@ -31,31 +32,33 @@ static bool run_once(verif::Schedule& sch, int run_idx, bool print) {
     std::vector<std::function<void()>> bodies;
     for (size_t t = 0; t < T; ++t) bodies.push_back([&, t] {
         Mode held = NONE;
-        auto acquire_w = [&] { if (g.W || g.R) g.err = "writer entered while held (W=" + std::to_string(g.W) + ",R=" + std::to_string(g.R) + ")"; g.W = 1; g.wgen++; held = WR; };
-        auto acquire_r = [&] { if (g.W) g.err = "reader entered while a writer holds"; g.R++; held = RD; };
+        auto acquire_w = [&] { if (g.W || g.R) g.err = "writer entered while held (W=" + std::to_string(g.W) + ",R=" + std::to_string(g.R) + ")"; g.W = 1; g.wgen++; held = WR; cs_w(); };
+        auto acquire_r = [&] { if (g.W) g.err = "reader entered while a writer holds"; g.R++; held = RD; cs_r(); };
         for (auto& op : g_progs[t]) {
             if (op == "lock" && held == NONE) { eff[t].push_back(op); m.lock(); acquire_w(); }
             else if (op == "try_lock" && held == NONE) { eff[t].push_back(op); bool b = m.try_lock(); res[t].push_back(b); if (b) acquire_w(); }
-            else if (op == "unlock" && held == WR) { eff[t].push_back(op); g.W = 0; held = NONE; m.unlock(); }
+            else if (op == "unlock" && held == WR) { eff[t].push_back(op); cs_w(); g.W = 0; held = NONE; m.unlock(); }
             else if (op == "lock_shared" && held == NONE) { eff[t].push_back(op); m.lock_shared(); acquire_r(); }
             else if (op == "try_lock_shared" && held == NONE) { eff[t].push_back(op); bool b = m.try_lock_shared(); res[t].push_back(b); if (b) acquire_r(); }
-            else if (op == "unlock_shared" && held == RD) { eff[t].push_back(op); g.R--; held = NONE; m.unlock_shared(); }
+            else if (op == "unlock_shared" && held == RD) { eff[t].push_back(op); cs_r(); g.R--; held = NONE; m.unlock_shared(); }
             else if (op == "upgrade" && held == RD) {
                 eff[t].push_back(op);
                 long gen0 = g.wgen;
+                cs_r();
                 g.R--;                       // ghost release first: ghost-held intervals are always inside real-held ones
                 bool b = m.upgrade();
                 res[t].push_back(b);
                 if (b && g.wgen != gen0) g.err = "upgrade returned true although another writer held the lock in between";
                 acquire_w();
             }
-            else if (op == "downgrade" && held == WR) { eff[t].push_back(op); g.W = 0; acquire_r(); m.downgrade(); }   // ghost: a reader from before the call on, so a writer that gets in during the call is caught
+            else if (op == "downgrade" && held == WR) { eff[t].push_back(op); cs_w(); g.W = 0; acquire_r(); m.downgrade(); }   // ghost: a reader from before the call on, so a writer that gets in during the call is caught
         }
         // release whatever is still held so that other threads can finish
-        if (held == WR) { eff[t].push_back("unlock"); g.W = 0; m.unlock(); }
-        else if (held == RD) { eff[t].push_back("unlock_shared"); g.R--; m.unlock_shared(); }
+        if (held == WR) { eff[t].push_back("unlock"); cs_w(); g.W = 0; m.unlock(); }
+        else if (held == RD) { eff[t].push_back("unlock_shared"); cs_r(); g.R--; m.unlock_shared(); }
     });
     verif::Result r = verif::run(bodies, sch);
+    if (g.err.empty()) g.err = cs_hb(r, bodies.size());
     bool ok = g.err.empty() && !r.deadlock;
     if (print || !ok) {
         printf("run %d\n", run_idx);
